@@ -93,6 +93,7 @@ package buffer
 //@ afunc ReadUint32
 //@   property C08
 //@   havoc c
+//@   gset lastword(r) = *c
 //@   ensures implies(isnil(err), n == 4)
 
 // lastword(r): the value the last successful ReadUint64 on r decoded (a ghost of the reader, set here)
